@@ -15,7 +15,7 @@ import z3
 from pyvc.contracts import contract, Contract
 from pyvc.env import STUBS, R1, ClassModel
 from pyvc.smt import And, Or, Not, Implies, iv, fresh_int, fresh_name, TRUE, FALSE
-from pyvc.values import SInt, SBool, NONE, Ref, HObj, HList, SExc, Opaque, StubV, ModV, ClassV, Unsupported
+from pyvc.values import SInt, SBool, SReal, NONE, Ref, HObj, HList, SExc, Opaque, StubV, ModV, ClassV, Unsupported
 from pyvc.state import State
 from .workers import mk_worker, AppError
 
@@ -70,6 +70,10 @@ def _spawn(ex, st, self_v, args, kwargs, node):
 
 
 def _esleep(ex, st, self_v, args, kwargs, node):
+    hb = st.obj(st.ghost["worker_ref"]).fields["timeout"].t
+    a = z3.ToReal(args[0].t) if isinstance(args[0], SInt) else args[0].t
+    if st.ghost.get("in_main_loop", True):
+        st.ghost["wait_ok"] = And(st.ghost["wait_ok"], Or(hb == 0, a <= hb))
     return R1(ex, st, NONE)
 
 
@@ -98,7 +102,7 @@ def _notify(ex, st, self_v, args, kwargs, node):
     return R1(ex, st, NONE)
 
 
-@contract("gunicorn.workers.geventlet:EventletWorker.run", props=("C04", "C10"))
+@contract("gunicorn.workers.geventlet:EventletWorker.run", props=("C04", "C10", "C11"))
 class EventletRun(Contract):
     """after the loop ends every acceptor is asked to finish what is in flight (StopServe) and run() returns normally only
     when EVERY acceptor has finished - or when the graceful timeout fired, in which case every acceptor is killed; a
@@ -117,7 +121,10 @@ class EventletRun(Contract):
         env.global_overrides = {(MOD, "GreenSocket"): StubV("ctor:GreenSock"), (MOD, "eventlet"): ModV("eventlet"),
                                 (MOD, "partial"): ClassV(functools.partial), (MOD, "_eventlet_serve"): Opaque("serve-function")}
         env.mod_attr_overrides = {"eventlet.Timeout": ClassV(ETimeout), "eventlet.StopServe": ClassV(EStopServe)}
-        st.ghost.update({"nacc": 0, "active_timeout": None, "foreign_timeout": FALSE})
+        st.ghost.update({"nacc": 0, "active_timeout": None, "foreign_timeout": FALSE, "wait_ok": TRUE, "worker_ref": w})
+        hbp = z3.Real("self.timeout")
+        st.assume(hbp >= 0)
+        o.fields["timeout"] = SReal(hbp)
         return [("two-listeners", st, {"self": w}, {})]
 
     def raises(self, c):
@@ -133,8 +140,9 @@ class EventletRun(Contract):
         n = g["nacc"]
         return [("one-acceptor-per-listener", TRUE if n == 2 else FALSE),
                 ("every-acceptor-was-asked-to-stop-serving", And(*[g["asked_%d" % k] for k in range(n)])),
+                ("sleeps-between-heartbeats-are-bounded-by-the-heartbeat-period", g["wait_ok"]),
                 ("returns-only-when-every-acceptor-finished-or-(graceful-timeout)-every-acceptor-was-killed",
                  Or(And(*[g["finished_%d" % k] for k in range(n)]), And(*[g["killed_%d" % k] for k in range(n)]))),
                 ("a-Timeout-that-is-not-the-graceful-one-is-never-swallowed", Not(g["foreign_timeout"]))]
 
-    loops = {0: dict(anchor="for sock in self.sockets", cands=[]), 1: dict(anchor="while self.alive", cands=[])}
+    loops = {0: dict(anchor="for sock in self.sockets", cands=[]), 1: dict(anchor="while self.alive", cands=[("wait_ok", lambda L: L.st.ghost["wait_ok"])])}
